@@ -213,6 +213,13 @@ class StepExtract:
     def on_enter(self, ctl):
         pass
 
+    def state_at(self, ctl, i):
+        # only used to match the roles of renamed locals (engine.LoopCtl._match_roles): the marching state starts as the
+        # initial pair, the level arrays start empty
+        p, q = self.inp.spec_state(i)
+        fp, fq = self.inp.spec_levels(i)
+        return {"fftpi": p, "fftqi": q, "fftp": fp, "fftq": fq}
+
     def iter_state(self, ctl, i):
         inp = self.inp
         self.p = arrays.fresh_array("st_p", [inp.nxy], "complex")
